@@ -46,7 +46,10 @@ pub struct Profile {
 }
 
 pub const ID_POOL_SMALL: [i32; 5] = [0, 1, 2, 3, 7];
-pub const ID_POOL_ODD: [i32; 10] = [0, 1, 2, 3, 7, -1, -5, 40000, i32::MAX, i32::MIN];
+/// Includes neighbours above 2^24 and at the ends of the i32 range (ids that a detour through f32 or a
+/// narrower integer would merge).
+pub const ID_POOL_ODD: [i32; 16] =
+    [0, 1, 2, 3, 7, -1, -5, 40000, i32::MAX, i32::MIN, 16_777_216, 16_777_217, 20_000_001, i32::MAX - 1, i32::MIN + 1, -16_777_217];
 
 pub fn gen_profile(rng: &mut Rng, focus: Focus, thorough: bool) -> Profile {
     let steps_pool: &[usize] = if thorough { &[1, 2, 3, 12, 12, 24, 365] } else { &[1, 2, 3, 12] };
